@@ -16,6 +16,8 @@ for d in sorted(glob.glob('/verif/seeded/*-*')):
     verdict = ', '.join(caught) or '**missed**'
     if m.get('status') == 'neutralised':
         verdict = 'neutralised by a later fix (not counted)'
+    if m.get('status') == 'disputed':
+        verdict = 'not counted: the statement does not decide (see meta.json)'
     rows.append((name, m.get('summary', '')[:150].replace('\n', ' ').replace('|', '/'), m.get('needs', '')[:150].replace('\n', ' ').replace('|', '/'), verdict))
 print('| seed | change | needs | caught by |\n|---|---|---|---|')
 for r in rows:
